@@ -181,6 +181,10 @@ func (d *DeviceRemote) UseCases() []model.UseCaseInformationDataType {
 	entity := d.Entity(DeviceInformationAddressEntity)
 
 	nodemgmt := d.FeatureByEntityTypeAndRole(entity, model.FeatureTypeTypeNodeManagement, model.RoleTypeSpecial)
+	// the feature is missing while a detailed discovery reply replaces the entities
+	if nodemgmt == nil {
+		return nil
+	}
 
 	data, ok := nodemgmt.DataCopy(model.FunctionTypeNodeManagementUseCaseData).(*model.NodeManagementUseCaseDataType)
 	if ok && data != nil {
